@@ -776,8 +776,25 @@ def exhaustive_histories(L, letters=None):
 
 
 # ---------------------------------------------------------------- probes
+_STRUCT = []          # structural observations of the probes: MUTABLE objects that two owners share although no behaviour shows it
+
+
+def note_shared(what, *objs):
+    """identity is a structural tie, not the property: remember sharing of mutable objects (immutable data may be shared freely)"""
+    import types
+    immutable = (tuple, frozenset, str, bytes, int, float, bool, type(None), types.MappingProxyType)
+    for a in range(len(objs)):
+        for c in range(a + 1, len(objs)):
+            if objs[a] is objs[c] and not isinstance(objs[a], immutable):
+                if what not in _STRUCT:
+                    _STRUCT.append(what)
+                return True
+    return False
+
+
 def probe():
-    """Mechanism facts, behaviourally."""
+    """Mechanism facts, behaviourally (what a write through one owner does to what the others read); object identity is only noted."""
+    del _STRUCT[:]
     from BPTK_Py import bptk, Model
     from BPTK_Py.sdsimulation import SdSimulation
     facts = {}
@@ -800,9 +817,9 @@ def probe():
         mg = b.scenario_manager_factory.scenario_managers["m0"]
         A.configure_settings({"constants": {"c0": 9.0}, "points": {"p0": pts_val(8)}})
         facts["mergeOwnsDict"] = (B.constants.get("c0") == 5.0 and mg.base_constants.get("c0") == 5.0 and
-                                  pts_code(B.points["p0"]) == 3 and pts_code(mg.base_points["p0"]) == 3 and
-                                  A.constants is not mg.base_constants and A.points is not mg.base_points and
-                                  A.constants is not B.constants and A.points is not B.points)
+                                  pts_code(B.points["p0"]) == 3 and pts_code(mg.base_points["p0"]) == 3)
+        note_shared("scenario constants dictionaries / manager base_constants (programmatic registration)", A.constants, B.constants, mg.base_constants)
+        note_shared("scenario points dictionaries / manager base_points (programmatic registration)", A.points, B.points, mg.base_points)
     finally:
         b.destroy()
     # session settings address (manager, scenario) pairs: two managers owning a scenario of the same name, ONE session over both,
@@ -833,8 +850,9 @@ def probe():
         new = b.get_scenario("m0", "s0")
         b.run_scenarios(scenarios=["s0"], scenario_managers=["m0"], equations=list(EQS), series_names={}, return_format="dict")
         # (identity, constants and run specs only: the points table is the business of `cloneOwnsPoints`)
-        facts["reregFreshClone"] = (new.model is not old_model and new.model.equations is not old_model.equations and
-                                    int(new.model.equations["c0"](0.0)) == DEF_CONST[0] and int(new.model.stoptime) == DEF_RS[1])
+        facts["reregFreshClone"] = (int(new.model.equations["c0"](0.0)) == DEF_CONST[0] and int(new.model.stoptime) == DEF_RS[1])
+        note_shared("model object / equations dictionary of a scenario across a re-registration under its name", new.model, old_model)
+        note_shared("model object / equations dictionary of a scenario across a re-registration under its name", new.model.equations, old_model.equations)
     finally:
         b.destroy()
     # arrayed elements
@@ -871,21 +889,24 @@ def probe_files():
         mg0, mg1 = real.mgr(0), real.mgr(1)
         models = [x.model for x in (A, B, C, D)]
         SdSimulation(model=A.model, name="probe").change_points(name="p1", value=pts_val(9))
-        out["cloneOwnsPoints"] = (len({id(m) for m in models}) == 4 and len({id(m.points) for m in models}) == 4 and
-                                  len({id(m.equations) for m in models}) == 4 and all(pts_code(x.model.points["p1"]) == DEF_PTS[1] for x in (B, C, D)))
+        out["cloneOwnsPoints"] = all(pts_code(x.model.points["p1"]) == DEF_PTS[1] for x in (B, C, D))
+        note_shared("model objects of file-loaded scenarios", *models)
+        note_shared("points tables of file-loaded scenarios' models", *[m.points for m in models])
+        note_shared("equations dictionaries of file-loaded scenarios' models", *[m.equations for m in models])
         dicts = [A.constants, B.constants, C.constants, D.constants, mg0.base_constants, mg1.base_constants]
         pdicts = [A.points, B.points, D.points, mg0.base_points]
         A.configure_settings({"constants": {"c0": 9.0}, "points": {"p0": pts_val(8)}})
-        out["mergeOwnsDict"] = (len({id(x) for x in dicts}) == len(dicts) and len({id(x) for x in pdicts}) == len(pdicts) and
-                                B.constants.get("c0") == 5.0 and D.constants.get("c0") == 5.0 and mg0.base_constants.get("c0") == 5.0 and
-                                mg1.base_constants.get("c0") == 5.0 and pts_code(B.points["p0"]) == 3 and pts_code(mg0.base_points["p0"]) == 3 and
-                                A.dictionary is not B.dictionary)
+        note_shared("constants dictionaries of file-loaded scenarios / managers", *dicts)
+        note_shared("points dictionaries of file-loaded scenarios / managers", *pdicts)
+        note_shared("scenario dictionaries of file-loaded scenarios", A.dictionary, B.dictionary, C.dictionary, D.dictionary)
+        out["mergeOwnsDict"] = (B.constants.get("c0") == 5.0 and D.constants.get("c0") == 5.0 and mg0.base_constants.get("c0") == 5.0 and
+                                mg1.base_constants.get("c0") == 5.0 and pts_code(B.points["p0"]) == 3 and pts_code(mg0.base_points["p0"]) == 3)
         b.run_scenarios(scenarios=["s2"], scenario_managers=["m0"], equations=list(EQS), series_names={}, return_format="dict")
         old_model = C.model
         b.register_scenarios(scenarios={"s2": {}}, scenario_manager="m0")
         new = b.get_scenario("m0", "s2")
-        out["reregFreshClone"] = (new.model is not old_model and new.model.equations is not old_model.equations and
-                                  int(new.model.equations["c1"](0.0)) == DEF_CONST[1])
+        out["reregFreshClone"] = int(new.model.equations["c1"](0.0)) == DEF_CONST[1]
+        note_shared("model object of a file-loaded scenario across a re-registration under its name", new.model, old_model)
     finally:
         real.close()
     return out
@@ -1151,12 +1172,26 @@ def _run(chk):
         small = shrink(ops[:v[0] + 1], key)
         vv = [x for x in run_history(small)[2] if x[1] == key]
         chk.add_finding(key, f"after {small!r}: {vv[0][2] if vv else v[2]}", {"ops": small, "violation": (vv[0] if vv else v)})
+    def probe_finding(key, text, ops):
+        """a probe flagged a mechanism but no generated history failed: show the witness history ON THE REAL CODE, or say that there is none"""
+        vs = run_history(ops)[2] + run_history([("files",)] + ops)[2]
+        if vs:
+            chk.add_finding(vs[0][1], f"{text}; after {ops!r}: {vs[0][2]}", {"ops": ops, "violation": vs[0]})
+        else:
+            chk.add_finding("obligation", f"{text} — the probe's fact selects a negation witness in Gen/C06.lean, but neither the witness history nor any "
+                            "generated history shows a wrong value on the real code", {"theorem": "Bptk.C06.Gen.violated (probe)", "probe": text}, found_input=False)
     if not facts["cloneOwnsPoints"] and "cross-scenario-leak" not in first and "base-model-leak" not in first:
-        chk.add_finding("cross-scenario-leak", "probe: change_points on one clone changes its sibling / the base model", {"ops": WITNESS})
+        probe_finding("cross-scenario-leak", "probe: change_points on one clone changes its sibling / the base model", WITNESS)
     if not facts["reregFreshClone"] and "own-settings" not in first and "result-mismatch" not in first:
-        chk.add_finding("own-settings", "probe: a scenario registered again under its name keeps the clone (and what was written into it) of its previous registration", {"ops": WITNESS_REREG})
+        probe_finding("own-settings", "probe: a scenario registered again under its name keeps what was written into the model of its previous registration", WITNESS_REREG)
     if not facts["mergeOwnsDict"] and "cross-scenario-leak" not in first and "base-dict-leak" not in first:
-        chk.add_finding("cross-scenario-leak", "probe: configure_settings on one scenario without own dictionaries rewrites the manager's base dictionaries / its siblings", {"ops": WITNESS_MERGE})
+        probe_finding("cross-scenario-leak", "probe: configure_settings on one scenario without own dictionaries rewrites the manager's base dictionaries / its siblings", WITNESS_MERGE)
+    chk.notes["structural_sharing_of_mutable_objects"] = list(_STRUCT)
+    if _STRUCT and not first and ok and dinfo is None:
+        chk.add_finding("structure", "mutable objects are shared between owners the model keeps apart (" + "; ".join(_STRUCT) + "), yet no generated history and no "
+                        "probe shows a value leaking through them: the separation invariant of lean/Bptk/Props/C06.lean (Inv.refInj / ptsOwn / noShare) is not "
+                        "what the code does structurally", {"theorem": "Bptk.C06.inv_run (cells of distinct scenarios are distinct)", "shared": list(_STRUCT)},
+                        found_input=False)
     if not ok:
         chk.add_finding("obligation", f"proof obligations of C06 no longer check: {why}",
                         {"theorem": "Bptk.C06.Gen.holds / Bptk.Props.C06", "detail": why}, found_input=False)
